@@ -14,6 +14,7 @@ mod rational;
 mod sieve;
 mod iter;
 mod tensor;
+mod rand;
 
 use util::arg_value;
 
@@ -51,6 +52,7 @@ fn main() {
         ("iter", "record") => iter::record(seed, &tier, &out),
         ("tensor", "replay") => tensor::replay(&args[3], &out),
         ("tensor", "record") => tensor::record(seed, &tier, &out),
+        ("rand", "record") => rand::record(seed, &tier, &out),
         ("mint", "record") => mint::record(seed, &tier, &out),
         ("writer", "replay") => writer::replay(&args[3], &out),
         ("writer", "record") => writer::record(seed, &tier, &out),
